@@ -65,3 +65,53 @@ def unchanged_list(ex, se, xs):
     old.heap = se.old.heap
     a, b = list_as_seq(tmp, xs), list_as_seq(old, xs)
     return VBool(ops.val_eq(a, b))
+
+
+def _fld(ex, se, obj, name):
+    if isinstance(obj, VOpt):
+        obj = obj.val
+    return ex.sp_load(se, obj.t, "Fiber", name)
+
+
+@spec_fn("wf")
+def wf(ex, se, f):
+    """C01 representation invariant of one (eager, ordered, unique) fiber: parallel lists, strictly increasing coords."""
+    coords, payloads = _fld(ex, se, f, "coords"), _fld(ex, se, f, "payloads")
+    tmp = State()
+    tmp.heap = se.st.heap
+    n = list_len(tmp, coords)
+    a = list_arrays(tmp, coords)[0]
+    i, j = z3.Int(fresh_name("wi")), z3.Int(fresh_name("wj"))
+    return VBool(z3.And(n == list_len(tmp, payloads), coords.t != payloads.t,
+                        _fld(ex, se, f, "_ordered").t, _fld(ex, se, f, "_unique").t,
+                        z3.Not(_fld(ex, se, f, "_is_lazy").t),
+                        z3.ForAll([i, j], z3.Implies(z3.And(0 <= i, i < j, j < n), a[i] < a[j]))))
+
+
+@spec_fn("pempty")
+def pempty(ex, se, p, default):
+    """Payload.isEmpty as a spec function: a box is empty iff its value equals the default; a fiber iff g_empty."""
+    if isinstance(p, VOpt):
+        p = p.val
+    d = default
+    if isinstance(d, VObj):
+        d = ex.sp_load(se, d.t, "Payload", "value")
+    dv = ops.as_u(d)
+    box = ex.sp_load(se, p.t, "Payload", "value").t == dv
+    if p.classes == ("Payload",):
+        return VBool(box)
+    fe = ex.sp_load(se, p.t, "Fiber", "g_empty").t
+    if p.classes == ("Fiber",):
+        return VBool(fe)
+    return VBool(z3.If(cls_of(p.t) == class_tag("Fiber"), fe, box))
+
+
+@spec_fn("member")
+def member(ex, se, x, xs, lo=None, hi=None):
+    """exists k in [lo,hi): xs[k] == x   (component 0)"""
+    s = _seq_of(ex, se, xs)
+    l = z3.IntVal(0) if lo is None else ops.to_int(lo)
+    h = s.n if hi is None else ops.to_int(hi)
+    k = z3.Int(fresh_name("mk"))
+    xv = x.val if isinstance(x, VOpt) else x
+    return VBool(z3.Exists([k], z3.And(l <= k, k < h, s.comps[0][k] == xv.t)))
